@@ -1467,10 +1467,15 @@ struct BCase {
 	mode: usize,
 	/// balanced in the integers (the property's precondition)
 	balanced: bool,
+	/// output 0 is paid to the key id of input 0 (change back to the key being spent: same derivation path,
+	/// another amount)
+	share_key: bool,
+	/// the outputs are handed to the builder before the inputs
+	outs_first: bool,
 }
 
 fn bcase_json(c: &BCase) -> Value {
-	json!({"part": "builder", "ins": c.ins, "outs": c.outs, "fee": c.fee, "builder": BUILDER_NAMES[c.builder], "mode": MODES[c.mode], "balanced": c.balanced})
+	json!({"part": "builder", "ins": c.ins, "outs": c.outs, "fee": c.fee, "builder": BUILDER_NAMES[c.builder], "mode": MODES[c.mode], "balanced": c.balanced, "share_key": c.share_key, "outs_first": c.outs_first})
 }
 
 /// All multisets of inputs (0-2) / outputs (1-3) over AMOUNTS and fee over FEES that balance in
@@ -1507,12 +1512,21 @@ fn builder_cases(tier: Tier) -> Vec<BCase> {
 							}
 						};
 						if run {
-							out.push(BCase { ins: ins.clone(), outs: outs.clone(), fee, builder, mode, balanced: true });
+							out.push(BCase { ins: ins.clone(), outs: outs.clone(), fee, builder, mode, balanced: true, share_key: false, outs_first: false });
+							// the same elements in the other order, and with the first output paid to the key of the first
+							// input (another amount on the same path), in both orders
+							if builder == B_NEW && mode <= 1 && !ins.is_empty() && outs.len() <= 2 {
+								out.push(BCase { ins: ins.clone(), outs: outs.clone(), fee, builder, mode, balanced: true, share_key: false, outs_first: true });
+								if ins[0] != outs[0] {
+									out.push(BCase { ins: ins.clone(), outs: outs.clone(), fee, builder, mode, balanced: true, share_key: true, outs_first: false });
+									out.push(BCase { ins: ins.clone(), outs: outs.clone(), fee, builder, mode, balanced: true, share_key: true, outs_first: true });
+								}
+							}
 						}
 					}
 				}
 				if outs.len() == 1 && fee < (1 << 40) - 1 {
-					out.push(BCase { ins: ins.clone(), outs: outs.clone(), fee: fee + 1, builder: B_NEW, mode: 1, balanced: false });
+					out.push(BCase { ins: ins.clone(), outs: outs.clone(), fee: fee + 1, builder: B_NEW, mode: 1, balanced: false, share_key: false, outs_first: false });
 				}
 			}
 		}
@@ -1543,13 +1557,21 @@ fn fixed_kernel(secp: &Secp256k1, features: KernelFeatures, skey: &SecretKey, no
 
 fn builder_run<B: ProofBuild>(kc: &ExtKeychain, pb: &B, c: &BCase, case_no: u64, o: &mut Obs) {
 	let secp = kc.secp();
-	let what = format!("inputs {:?} outputs {:?} fee {} via build::{} with {}", c.ins, c.outs, c.fee, MODES[c.mode], BUILDER_NAMES[c.builder]);
+	let what = format!("inputs {:?} outputs {:?} fee {} via build::{} with {}{}{}", c.ins, c.outs, c.fee, MODES[c.mode], BUILDER_NAMES[c.builder], if c.share_key { ", output 0 on the key id of input 0" } else { "" }, if c.outs_first { ", outputs handed over first" } else { "" });
+	let oid = |i: usize| if c.share_key && i == 0 { in_id(0) } else { out_id(c.builder, i) };
 	let mut elems: Vec<Box<Append<ExtKeychain, B>>> = vec![];
+	if c.outs_first {
+		for (i, v) in c.outs.iter().enumerate() {
+			elems.push(build::output(*v, oid(i)));
+		}
+	}
 	for (i, v) in c.ins.iter().enumerate() {
 		elems.push(build::input(*v, in_id(i)));
 	}
-	for (i, v) in c.outs.iter().enumerate() {
-		elems.push(build::output(*v, out_id(c.builder, i)));
+	if !c.outs_first {
+		for (i, v) in c.outs.iter().enumerate() {
+			elems.push(build::output(*v, oid(i)));
+		}
 	}
 	// reference: the key of every element (one derivation each), its commitment computed from the
 	// key in the static context, and the blinding sum outputs - inputs in scalar arithmetic
@@ -1560,7 +1582,7 @@ fn builder_run<B: ProofBuild>(kc: &ExtKeychain, pb: &B, c: &BCase, case_no: u64,
 		(Sc::of_key(&k), c)
 	};
 	let in_ref: Vec<(Sc, Commitment)> = c.ins.iter().enumerate().map(|(i, v)| key_commit(*v, &in_id(i))).collect();
-	let out_ref: Vec<(Sc, Commitment)> = c.outs.iter().enumerate().map(|(i, v)| key_commit(*v, &out_id(c.builder, i))).collect();
+	let out_ref: Vec<(Sc, Commitment)> = c.outs.iter().enumerate().map(|(i, v)| key_commit(*v, &oid(i))).collect();
 	let mut ksum = Sc::ZERO;
 	for (k, _) in &out_ref {
 		ksum = ksum.add(k);
@@ -1669,7 +1691,7 @@ fn builder_run<B: ProofBuild>(kc: &ExtKeychain, pb: &B, c: &BCase, case_no: u64,
 		let rw = rewind_with(secp, pb, out.commitment(), out.proof);
 		let pos = out_ref.iter().position(|(_, cm)| *cm == out.commitment());
 		let ok = match (&rw, pos) {
-			(Ok(Some((a, id, sw))), Some(i)) => *a == c.outs[i] && *id == out_id(c.builder, i) && *sw == SwitchCommitmentType::Regular,
+			(Ok(Some((a, id, sw))), Some(i)) => *a == c.outs[i] && *id == oid(i) && *sw == SwitchCommitmentType::Regular,
 			_ => false,
 		};
 		if ok {
@@ -1986,6 +2008,8 @@ impl Engine for C20 {
 					builder: gen,
 					mode: MODES.iter().position(|m| case["mode"] == *m).unwrap_or(0),
 					balanced: case["balanced"].as_bool().unwrap_or(true),
+					share_key: case["share_key"].as_bool().unwrap_or(false),
+					outs_first: case["outs_first"].as_bool().unwrap_or(false),
 				};
 				builder_case(&uni::keychain(SEEDS[seed_i]), &c, case["case_no"].as_u64().unwrap_or(0), &mut o);
 			}
